@@ -214,7 +214,8 @@ namespace _fmt_basics {
 			bool plus_becomes_space = false, bool use_capitals = false,
 			locale_options locale_opts = {}, const char *prefix = nullptr) {
 		if(number < 0) {
-			auto absv = ~static_cast<typename std::make_unsigned_t<T>>(number) + 1;
+			// Not auto: for a T narrower than int (char) the operands are promoted to int.
+			std::make_unsigned_t<T> absv = ~static_cast<typename std::make_unsigned_t<T>>(number) + 1;
 			print_digits(sink, absv, true, radix, width, precision, padding,
 					left_justify, group_thousands, always_sign, plus_becomes_space, use_capitals,
 					locale_opts, prefix);
